@@ -158,6 +158,14 @@ func EvalFilter(n *gen.FNode, ts *gen.TypeSpec, vals map[string]any) bool {
 					return true
 				}
 			}
+		case "<":
+			return cur < n.Val.(string)
+		case "<=":
+			return cur <= n.Val.(string)
+		case ">":
+			return cur > n.Val.(string)
+		case ">=":
+			return cur >= n.Val.(string)
 		}
 
 		return false
